@@ -102,11 +102,62 @@ pub fn utf8_name() -> BoxedStrategy<Vec<u8>> {
 }
 
 /// Representable addresses (what a conforming peer can put on the wire and what the client can accept).
+/// An IPv6 address drawn from a mixture that includes the forms with special meaning: unspecified, loopback,
+/// IPv4-mapped, IPv4-compatible (upper 96 bits zero), NAT64, link-local, multicast, all ones - next to uniform ones.
+pub fn v6_from(seed: u64) -> [u8; 16] {
+    let mut d = Det::new(seed, "v6");
+    let r: [u8; 16] = d.arr();
+    let mut a = [0u8; 16];
+    match seed % 12 {
+        0 => {}
+        1 => a[15] = 1,
+        2 => {
+            a[10] = 0xff;
+            a[11] = 0xff;
+            a[12..].copy_from_slice(&r[..4]);
+        }
+        3 => a[12..].copy_from_slice(&r[..4]),
+        4 => {
+            a[..4].copy_from_slice(&[0, 0x64, 0xff, 0x9b]);
+            a[12..].copy_from_slice(&r[..4]);
+        }
+        5 => {
+            a[0] = 0xfe;
+            a[1] = 0x80;
+            a[8..].copy_from_slice(&r[..8]);
+        }
+        6 => {
+            a[0] = 0xff;
+            a[1] = 0x02;
+            a[15] = r[0];
+        }
+        7 => a = [0xff; 16],
+        8 => a[14..].copy_from_slice(&r[..2]),
+        _ => a = r,
+    }
+    a
+}
+
+/// An IPv4 address from a mixture with the special forms (unspecified, loopback, broadcast, private, multicast).
+pub fn v4_from(seed: u64) -> [u8; 4] {
+    let mut d = Det::new(seed, "v4");
+    let r: [u8; 4] = d.arr();
+    match seed % 10 {
+        0 => [0, 0, 0, 0],
+        1 => [127, 0, 0, 1],
+        2 => [255, 255, 255, 255],
+        3 => [10, r[1], r[2], r[3]],
+        4 => [224, 0, 0, r[3]],
+        5 => [0, 0, 0, r[3]],
+        _ => r,
+    }
+}
+
 pub fn addr_strategy() -> BoxedStrategy<Addr> {
     let port = prop_oneof![3 => any::<u16>(), 1 => Just(0u16), 1 => Just(80), 1 => Just(443), 1 => Just(65535)];
     prop_oneof![
-        3 => (any::<[u8; 4]>(), port.clone()).prop_map(|(a, p)| Addr::V4(a, p)),
-        2 => (any::<[u8; 16]>(), port.clone()).prop_map(|(a, p)| Addr::V6(a, p)),
+        3 => (any::<u64>(), port.clone()).prop_map(|(a, p)| Addr::V4(v4_from(a), p)),
+        2 => (any::<u64>(), port.clone()).prop_map(|(a, p)| Addr::V6(v6_from(a), p)),
         4 => (ldh_name(255), port.clone()).prop_map(|(n, p)| Addr::Name(n, p)),
         1 => (utf8_name(), port).prop_map(|(n, p)| Addr::Name(n, p)),
     ]
